@@ -432,7 +432,7 @@ def _features(op, case):
 
 
 def _call_text(op, case):
-    func = "observe_dir" if op != "write" else ("observe_pipeline_write" if data.get("writer") == "run_antismash" else "observe_write")
+    func = "observe_dir" if op != "write" else ("observe_pipeline_write" if case.get("writer") == "run_antismash" else "observe_write")
     return f"from harness.props import c20; c20.{func}({case!r})"
 
 
